@@ -255,6 +255,7 @@ def check(run) -> None:
                      replay={"llm": {k: v for k, v in c.items() if k != "workdir"}})
     from . import c19_write
     c19_write.check(run)
+    c19_write.check_planner_flag(run)
     run.exhaustive = not q
     run.assumptions += ["the plan's reflection flag is injected through the documented orchestrator.t3_deliberate override around the real planner",
                         "timeout is produced by a scripted perf counter jumping inside the reflection call"]
@@ -266,6 +267,9 @@ def replay(rep) -> int:
     if "reflwrite" in r:
         from . import c19_write
         fails = c19_write.replay_case(r["reflwrite"])
+    elif "planner_flag" in r:
+        from . import c19_write
+        fails = c19_write.planner_flag_case(r["planner_flag"])
     elif "case" in r:
         fails = replay_history(dict(r["case"], workdir="/verif/.work/C19"))
     else:
